@@ -105,3 +105,32 @@ func H_two() {
 	symx.AssertKnown(gotX == (kind == a), "first instance keeps enforcing its own type argument", a != b, "C19-first-instantiation-wins")
 	symx.Reach("end")
 }
+
+// H_members: a generic class with two type parameters and three typed members; after touching one
+// member every other member still enforces its own type argument (single instantiation: no
+// recorded finding applies).
+func H_members() {
+	a, b := symx.Choose("K", 4), symx.Choose("V", 4)
+	first := symx.Choose("first", 3)   // member touched first (with a valid value)
+	target := symx.Choose("target", 3) // member then written
+	kind := symx.Choose("kind", 4)
+	w := symx.Int("w")
+	members := []string{"k", "val", "k2"}
+	mtype := []int{a, b, a}
+	src := "class U {}\nclass Pair<K, V> { public K $k; public V $val; public K $k2; }\n$p = new Pair<" + typeArgs[a] + ", " + typeArgs[b] + ">();\n"
+	src += "$p->" + members[first] + " = " + valueExprs[mtype[first]] + ";\n"
+	src += "try { $p->" + members[target] + " = " + valueExprs[kind] + "; mark(1); } catch (Throwable $e) { mark(0); }\n"
+	s := sx.Compile(src)
+	symx.Assert(s.Err == nil, "history parses")
+	if s.Err != nil {
+		return
+	}
+	_, ctl := s.Run(sx.Bind{Name: "pw", V: sx.Int(w)})
+	symx.Assert(ctl == nil && len(sx.Log) == 1, "history runs")
+	if ctl != nil || len(sx.Log) != 1 {
+		return
+	}
+	got := sx.Log[0].Kind == 'M' && sx.Log[0].I == 1
+	symx.Assert(got == (kind == mtype[target]), "each typed member enforces its own type argument, whichever member was used first")
+	symx.Reach("end")
+}
